@@ -7,9 +7,9 @@ Import ListNotations.
 
 Definition ident := N.
 
-Inductive ty := TInt | TBool | TVoid | TStr.
+Inductive ty := TInt | TBool | TVoid | TStr | TArr.       (* TArr = array<int> *)
 Definition ty_eqb (a b : ty) : bool :=
-  match a, b with TInt,TInt | TBool,TBool | TVoid,TVoid | TStr,TStr => true | _,_ => false end.
+  match a, b with TInt,TInt | TBool,TBool | TVoid,TVoid | TStr,TStr | TArr,TArr => true | _,_ => false end.
 
 Inductive binop := BAdd | BSub | BMul | BDiv | BMod | BEq | BNe | BLt | BLe | BGt | BGe | BAnd | BOr.
 Inductive unop := UNeg | UNot.
@@ -22,7 +22,10 @@ Inductive expr :=
   | EUn (o : unop) (a : expr)
   | EBin (o : binop) (a b : expr)
   | ECall (f : ident) (args : list expr)
-  | ECond (c a b : expr).                  (* (cond (c a) (else b)) *)
+  | ECond (c a b : expr)                   (* (cond (c a) (else b)) *)
+  | EArr (es : list expr)                  (* array literal [e1, e2, ...] of ints; arrays are immutable values *)
+  | EAt (a i : expr)                       (* (at a i) *)
+  | ELen (a : expr).                       (* (array_length a) *)
 
 Fixpoint expr_mentions (x : ident) (e : expr) : bool :=
   match e with
@@ -32,6 +35,20 @@ Fixpoint expr_mentions (x : ident) (e : expr) : bool :=
   | EBin _ a b => expr_mentions x a || expr_mentions x b
   | ECall _ args => (fix go (l : list expr) : bool := match l with [] => false | a :: r => expr_mentions x a || go r end) args
   | ECond c a b => expr_mentions x c || expr_mentions x a || expr_mentions x b
+  | EArr es => (fix go (l : list expr) : bool := match l with [] => false | a :: r => expr_mentions x a || go r end) es
+  | EAt a i => expr_mentions x a || expr_mentions x i
+  | ELen a => expr_mentions x a
+  end.
+
+(* programs of the array-free fragment (the language before arrays were added) *)
+Fixpoint expr_no_arrays (e : expr) : bool :=
+  match e with
+  | ENum _ | EBool _ | EStr _ | EVar _ => true
+  | EUn _ a => expr_no_arrays a
+  | EBin _ a b => expr_no_arrays a && expr_no_arrays b
+  | ECall _ args => (fix go (l : list expr) : bool := match l with [] => true | a :: r => expr_no_arrays a && go r end) args
+  | ECond c a b => expr_no_arrays c && expr_no_arrays a && expr_no_arrays b
+  | EArr _ | EAt _ _ | ELen _ => false
   end.
 
 Inductive stmt :=
@@ -53,6 +70,19 @@ Record fn := { fname : ident; fparams : list (ident * ty); fret : ty; fbody : st
 (* top-level constants: let g: t = e  (immutable) *)
 Record program := { pglobals : list (ident * ty * expr); pfns : list fn; pmain : ident }.
 
+Fixpoint stmt_no_arrays (s : stmt) : bool :=
+  match s with
+  | SSkip | SBreak | SContinue | SReturn None => true
+  | SSeq a b => stmt_no_arrays a && stmt_no_arrays b
+  | SLet _ _ _ e | SSet _ e | SReturn (Some e) | SPrint _ e | SAssert e | SExpr e => expr_no_arrays e
+  | SIf c a b => expr_no_arrays c && stmt_no_arrays a && stmt_no_arrays b
+  | SWhile c b => expr_no_arrays c && stmt_no_arrays b
+  | SFor _ lo hi b => expr_no_arrays lo && expr_no_arrays hi && stmt_no_arrays b
+  end.
+(* fallback side condition for consumers that do not (yet) cover arrays; defined once, here *)
+Definition no_arrays (p : program) : bool :=
+  forallb (fun d => stmt_no_arrays (fbody d)) (pfns p) && forallb (fun g => expr_no_arrays (snd g)) (pglobals p).
+
 (* a string literal is kept as spelled in the source; its value is the spelling with the escape sequences
    backslash-n, -t, -r, -0, -backslash, -doublequote, -quote translated (what the C compiler does for the native
    backend, codegen.c for the VM); as in C, the value ends at the first NUL *)
@@ -70,7 +100,7 @@ Fixpoint until_nul (s : list N) : list N :=
   match s with [] => [] | c :: r => if N.eqb c 0 then [] else c :: until_nul r end.
 Definition unescape (s : list N) : list N := until_nul (unescape_raw s).
 
-Inductive value := VInt (z : Z) | VBool (b : bool) | VVoid | VStr (s : list N).
+Inductive value := VInt (z : Z) | VBool (b : bool) | VVoid | VStr (s : list N) | VArr (l : list Z).
 
 Definition binop_eqb (a b : binop) : bool :=
   match a, b with
@@ -93,5 +123,22 @@ Definition print_Z (z : Z) : list N :=
   match z with Z0 => [48%N] | Zpos p => print_N (Npos p) | Zneg p => 45%N :: print_N (Npos p) end.
 Definition print_bool (b : bool) : list N :=
   if b then [116;114;117;101]%N else [102;97;108;115;101]%N.
+(* an array prints as [e1, e2, ...] on both engines *)
+Fixpoint print_elems (first : bool) (l : list Z) : list N :=
+  match l with [] => [] | z :: r => (if first then [] else [44;32]%N) ++ print_Z z ++ print_elems false r end.
 Definition print_value (v : value) : list N :=
-  match v with VInt z => print_Z z | VBool b => print_bool b | VVoid => [118;111;105;100]%N | VStr s => s end.
+  match v with
+  | VInt z => print_Z z | VBool b => print_bool b | VVoid => [118;111;105;100]%N | VStr s => s
+  | VArr l => [91%N] ++ print_elems true l ++ [93%N]
+  end.
+
+(* the values of the elements of an array literal: all ints, or the literal is ill-formed *)
+Fixpoint ints_of (vs : list value) : option (list Z) :=
+  match vs with
+  | [] => Some []
+  | VInt z :: r => match ints_of r with Some l => Some (z :: l) | None => None end
+  | _ :: _ => None
+  end.
+(* element k of an array, None outside 0 <= k < length *)
+Definition arr_get (l : list Z) (k : Z) : option Z :=
+  if ((0 <=? k) && (k <? Z.of_nat (length l)))%Z then Some (nth (Z.to_nat k) l 0%Z) else None.
